@@ -156,6 +156,9 @@ Lemma plain_hooks sd : plain_struct sd = true ->
   s_hook sd = HkNone /\ s_unhook sd = UkNone /\ forallb (fun fd => (f_skip fd || negb (f_embed fd))%bool) (s_fields sd) = true.
 Proof. unfold plain_struct. intros H. destruct (s_hook sd); try discriminate H. destruct (s_unhook sd); try discriminate H. auto. Qed.
 
+Lemma plain_compiled T sd : plain_struct sd = true -> hook_compiled T sd = CNone.
+Proof. intros H. apply plain_hooks in H. destruct H as [Hh [Hu _]]. unfold hook_compiled. rewrite Hh, Hu. reflexivity. Qed.
+
 Definition stable_at (T : table) (fuel : nat) (t : ty) (v : val) : Prop :=
   wf T t v = true -> ty_ptr_ok t = true -> fuel_free (encode T fuel t v) = true ->
   forall fuel' v', decode T fuel' t (encode T fuel t v) = Some v' ->
@@ -167,7 +170,7 @@ Lemma encode_not_null T fuel t v : wf T t v = true -> fuel_free (encode T (S fue
 Proof.
   intros Hw Hf. destruct t; auto; destruct v; cbn in Hw; try discriminate; cbn [encode]; try discriminate.
   - destruct (find_struct T n) as [sd|]; [|discriminate]. apply andb_true_iff in Hw. destruct Hw as [Hp _].
-    apply plain_hooks in Hp. destruct Hp as [Hh _]. rewrite Hh. discriminate.
+    rewrite (plain_compiled T sd Hp). discriminate.
   - destruct (String.eqb coder "text"); [discriminate|].
     unfold opaque_json. destruct (String.eqb n "api.DurationConfig"); [destruct (string_to_Z payload)|]; discriminate.
 Qed.
@@ -189,7 +192,8 @@ Proof.
     assert (Hok : struct_ok sd = true).
     { unfold table_ok in HT. rewrite forallb_forall in HT. specialize (HT sd (find_struct_in _ _ _ Hs)). rewrite Hp in HT. exact HT. }
     unfold struct_ok in Hok. apply andb_true_iff in Hok. destruct Hok as [Hnd Hpo].
-    cbn [encode] in *. rewrite Hs, Hh in *. cbn [decode] in Hd. rewrite Hs, Hh, Hu in Hd.
+    pose proof (plain_compiled T sd Hp) as Hc.
+    cbn [encode] in *. rewrite Hs, Hc in *. cbn [decode] in Hd. rewrite Hs in Hd. cbv zeta in Hd. rewrite Hc in Hd.
     set (O := enc_fields (encode T f) (s_fields sd) fs) in Hd, Hff.
     destruct (sequence _) as [vs'|] eqn:Eseq; cbn in Hd; [|discriminate]. inversion Hd; subst v'. clear Hd.
     apply sequence_map in Eseq.
